@@ -195,6 +195,40 @@ Definition close_verdicts (before body : list sop) (owns : bool) (fmd : fmode) :
          end)
       (seq (S n0) (n1 - n0)).
 
+(* ---- the Writer's own sticky error (writer.go: Writer.err, Writer.fail) ---- *)
+
+(* A Writer call is a sequence of operations that returns at the first one that
+   reports an error.  Put, WriteCompressed, the Write and Close of a stream
+   record that error in Writer.err if none is recorded yet ([c_records]);
+   Put, OpenStream, WriteCompressed and Close begin with
+   `else if w.err != nil { return w.err }` ([c_checks]).  Writer.fail wraps with
+   %w, so the recorded error is the sink's error as far as errors.Is goes. *)
+Record wcall := mkCall { c_ops : list sop; c_records : bool; c_checks : bool }.
+
+Definition run_call (f : option fault) (c : wcall) (st : option N * wst) : option N * (option N * wst) :=
+  let (we, s) := st in
+  match (if c_checks c then we else None) with
+  | Some e => (Some e, (we, s))
+  | None =>
+      let (r, s') := run_close f (c_ops c) s in
+      (r, (match we, r with
+           | None, Some e => if c_records c then Some e else None
+           | _, _ => we
+           end, s'))
+  end.
+
+Fixpoint run_calls (f : option fault) (cs : list wcall) (st : option N * wst) : list (option N) :=
+  match cs with
+  | [] => []
+  | c :: cs' => let (r, st') := run_call f c st in r :: run_calls f cs' st'
+  end.
+
+Fixpoint state_after (f : option fault) (cs : list wcall) (st : option N * wst) : option N * wst :=
+  match cs with
+  | [] => st
+  | c :: cs' => state_after f cs' (snd (run_call f c st))
+  end.
+
 (* ---- entry points for the correspondence run -------------------------- *)
 
 (* the sink calls of the fault-free run, in order *)
